@@ -343,7 +343,7 @@ theorem sorted_desc (rows : List Int) : (rows.mergeSort descLe).Pairwise (fun a 
 theorem sqlKept_eq (n : Nat) (rows : List Int) :
     sqlKept n rows =
       match ((rows.mergeSort descLe).take n).getLast? with
-      | none => rows
+      | none => []
       | some t => rows.filter (fun r => !decide (r < t)) := by
   unfold sqlKept sqlThreshold descLe; rfl
 
@@ -352,7 +352,7 @@ theorem C14_sql_deleted_older (n : Nat) (rows : List Int) (d k : Int)
     (hd : d ∈ rows) (hnd : d ∉ sqlKept n rows) (hk : k ∈ sqlKept n rows) : d < k := by
   rw [sqlKept_eq] at hnd hk
   split at hnd
-  · exact absurd hd hnd
+  · rename_i hn; rw [hn] at hk; cases hk
   · rename_i t ht
     rw [ht] at hk
     simp only [List.mem_filter, Bool.not_eq_true', decide_eq_false_iff_not] at hnd hk
@@ -366,7 +366,7 @@ theorem C14_sql_deleted_older (n : Nat) (rows : List Int) (d k : Int)
 theorem C14_sql_sublist (n : Nat) (rows : List Int) : (sqlKept n rows).Sublist rows := by
   rw [sqlKept_eq]
   split
-  · exact List.Sublist.refl _
+  · exact List.nil_sublist _
   · exact List.filter_sublist
 
 theorem take_all_ge_last (s : List Int) (hs : s.Pairwise (fun a b => b ≤ a)) (n : Nat) (t : Int)
@@ -387,7 +387,15 @@ theorem C14_sql_keeps_at_least (n : Nat) (rows : List Int) :
     min n rows.length ≤ (sqlKept n rows).length := by
   rw [sqlKept_eq]
   split
-  · omega
+  · rename_i hn
+    -- no threshold: N = 0 or the table is empty
+    have hperm : (rows.mergeSort descLe).Perm rows := List.mergeSort_perm rows descLe
+    have h0 : ((rows.mergeSort descLe).take n) = [] := List.getLast?_eq_none_iff.mp hn
+    have h1 : ((rows.mergeSort descLe).take n).length = min n rows.length := by
+      simp [List.length_take, hperm.length_eq]
+    rw [h0] at h1
+    simp only [List.length_nil] at h1 ⊢
+    omega
   · rename_i t ht
     have hs := sorted_desc rows
     have hperm : (rows.mergeSort descLe).Perm rows := List.mergeSort_perm rows descLe
@@ -408,8 +416,12 @@ theorem C14_sql_keeps_at_least (n : Nat) (rows : List Int) :
       simp [List.length_take, hperm.length_eq]
     omega
 
-/-- KNOWN FINDING `sqlite-keep-zero`: with N = 0 the model (like the code) keeps every row -/
-theorem C14_sql_zero_cex : sqlKept 0 [3, 1, 2] = [3, 1, 2] := by decide
+/-- a limit of 0 commands keeps nothing (repaired; `sqlite-keep-zero`) -/
+theorem C14_sql_zero (rows : List Int) : sqlKept 0 rows = [] := by
+  rw [sqlKept_eq]; simp
+
+/-- the pinned snapshot kept every row for N = 0 (`tsb < NULL` matches nothing) -/
+theorem C14_sql_zero_old_cex : sqlKeptOld 0 [3, 1, 2] = [3, 1, 2] := by decide
 
 example : min 2 ([5, 1, 9, 3] : List Int).length ≤ (sqlKept 2 [5, 1, 9, 3]).length :=
   C14_sql_keeps_at_least 2 [5, 1, 9, 3]
